@@ -412,7 +412,56 @@ class _OsProxy:
         return self._rm(os.unlink, path)
 
 
+# ------------------------------------------------------------------------------------------------
+# the stream of fresh random draws the emission preseeds come from
+# ------------------------------------------------------------------------------------------------
+# gen_seed_emis draws its preseeds with np.random.randint(0, 255) from the process-wide generator; in real
+# use every run is a new process with fresh entropy.  The harness supplies that entropy as an INPUT
+# stream: the k-th draw gen_seed_emis makes in run g of a folder's history returns PERM[position], a
+# value no earlier draw of that history returned (so two preseeds coincide only if the code replays a
+# draw), and is recorded under the name (g, k) - the `Draw` of the Lean model.  Other randint calls
+# (daily seed series) and every other use of numpy pass through untouched.
+PERM = list(np.random.RandomState(NP_SEED).permutation(255))
+
+
+class _Stream:
+    world = None      # object with .pos, .gid_now, .k_now, .draw_names
+
+
+STREAM = _Stream()
+
+
+class _NpRandomProxy:
+    def __getattr__(self, name):
+        return getattr(np.random, name)
+
+    @staticmethod
+    def randint(*a, **k):
+        import sys as _sys
+        w = STREAM.world
+        if w is not None and _sys._getframe(1).f_code.co_name == "gen_seed_emis":
+            v = int(PERM[w.pos % len(PERM)])
+            w.draw_names[v] = (w.gid_now, w.k_now)
+            w.pos += 1
+            w.k_now += 1
+            return v
+        return np.random.randint(*a, **k)
+
+
+class _NpProxy:
+    random = _NpRandomProxy()
+
+    def __getattr__(self, name):
+        return getattr(np, name)
+
+
+def show_draws(seeds, names):
+    """stored preseeds -> '<run.k;run.k>' (names of the draws that produced them; ?v = not a recorded draw)"""
+    return "<" + ";".join("%d.%d" % names[int(v)] if int(v) in names else f"?{v}" for v in seeds) + ">"
+
+
 def install_instrumentation():
+    PS.np = _NpProxy()
     for mod in (II, IE, PS):
         mod.open = _w_open
         if hasattr(mod, "pickle"):
@@ -448,6 +497,9 @@ class World:
         self.meta = {}                       # file id -> generation id (run number) it came from
         self.visited = {tuple(self.inputs.vv)}
         self.seed_at = {}                    # index -> seed values seen at that index
+        self.pos = 0                         # draws made so far from the preseed stream
+        self.draw_names = {}                 # value -> (run, k) of the draw that returned it
+        self.gid_now = self.k_now = 0
         self._dcache = {}                    # sha1(file bytes) -> digest of unpickled object
         self.hash_rev = None
 
@@ -460,6 +512,7 @@ class World:
         if has_gen:
             shutil.copytree(self.gen, dst)
         return {"dir": dst, "has_gen": has_gen, "vv": list(self.inputs.vv), "gid": self.gid, "meta": dict(self.meta),
+                "pos": self.pos, "draw_names": dict(self.draw_names),
                 "visited": set(self.visited), "seed_at": {k: set(v) for k, v in self.seed_at.items()}}
 
     def restore(self, snap):
@@ -475,6 +528,8 @@ class World:
             elif self.inputs.has(k) and self.inputs.vv[k] != v:
                 self.inputs.set(k, v)
         self.gid = snap["gid"]
+        self.pos = snap["pos"]
+        self.draw_names = dict(snap["draw_names"])
         self.meta = dict(snap["meta"])
         self.visited = set(snap["visited"])
         self.seed_at = {k: set(v) for k, v in snap["seed_at"].items()}
@@ -519,7 +574,7 @@ class World:
         m.pre_simulation_emissions = inp.pre_sim
         return m
 
-    def run(self, n, crash_at=None, tear=False, via_manager=True, preseed=True):
+    def run(self, n, crash_at=None, tear=False, via_manager=True, preseed=True, entropy=0):
         """one run of the real initialisation; returns the record of what happened.  via_manager: the
         REAL SimulationManager.check_generator_files -> setup_infrastructure -> setup_emissions pass
         the arguments (simulation_manager.py); otherwise the three functions are called directly."""
@@ -529,7 +584,9 @@ class World:
         folder_before = self.folder_state()
         INSTR.reset(crash_at, tear)
         INSTR.active = True
-        np.random.seed(NP_SEED)
+        np.random.seed(NP_SEED + entropy)
+        STREAM.world, self.gid_now, self.k_now = self, my_gid, 0
+        emis_sha_before = self.emis_sha()
         outcome, err, infra, series = "done", None, None, None
         inp = self.inputs
         try:
@@ -552,6 +609,7 @@ class World:
             outcome, err = "fail", f"{type(e).__name__}: {e}"[:200]
         finally:
             INSTR.active = False
+            STREAM.world = None
         # provenance of what was written
         infra_before = self.meta.get("infra")
         cur_mem = infra_before
@@ -578,7 +636,30 @@ class World:
                 # observed independently of the instrumentation: which files of the generator folder differ
                 # (size / mtime / bytes), and whether the run changed the parameter dictionaries it was handed
                 "changed_files": changed,
+                "emis_bytes_changed": sorted(f for f, h in emis_sha_before.items() if self.emis_sha().get(f) != h),
+                "draws": self.k_now,
                 "dicts_mutated": (self.inputs.vw, self.inputs.programs) != dicts_before}
+
+    def emis_sha(self):
+        out = {}
+        if os.path.isdir(self.gen):
+            for name in os.listdir(self.gen):
+                fid = file_id(self.gen / name)
+                if fid and fid.startswith("emis"):
+                    with open(self.gen / name, "rb") as fh:
+                        out[fid] = hashlib.sha1(fh.read()).hexdigest()
+        return out
+
+    def body_digest(self, i):
+        """digest of the emission list of scenario i without its simulation-number key"""
+        st, obj = _load(self.emis_path(i))
+        if st != "ok":
+            return None
+        with open(self.emis_path(i), "rb") as fh:
+            key = ("body", hashlib.sha1(fh.read()).hexdigest())
+        if key not in self._dcache:
+            self._dcache[key] = digest(list(obj.values())[0] if isinstance(obj, dict) and len(obj) == 1 else obj)
+        return self._dcache[key]
 
     def folder_state(self):
         out = {}
@@ -655,7 +736,7 @@ class World:
         """the generator folder in the vocabulary of the model's driver"""
         out = {}
         st, obj = _load(self.gen / GEN_FILES["seeds"])
-        out["seeds"] = {"absent": "-", "torn": "T"}.get(st) or str(len(obj))
+        out["seeds"] = {"absent": "-", "torn": "T"}.get(st) or show_draws(obj, self.draw_names)
         st, obj = _load(self.gen / GEN_FILES["hashes"])
         if st != "ok":
             out["hashes"] = {"absent": "-", "torn": "T"}[st]
